@@ -1,4 +1,5 @@
 import RustbusModel.Lemmas.Wire
+import RustbusModel.Lemmas.WireShapeInduct
 /-!
 Shape facts about `enc` (what makes it recognisably *the* D-Bus encoding) and the typing predicate.
 Statements fixed; helpers may be added above them.
@@ -6,15 +7,140 @@ Statements fixed; helpers may be added above them.
 namespace Rustbus.Wire
 open Rustbus Rustbus.Bytes Rustbus.Spec.Wire
 
+/-! ### alignment -/
+
+theorem encBase_aligned (bo : ByteOrder) (off : Nat) (b : Base) (v : Val) (bs : List UInt8)
+    (h : encBase bo off b v = some bs) :
+    ∃ r, bs = zeros (padLen b.align off) ++ r ∧ 0 < r.length := by
+  cases hk : b.fixedSize with
+  | some k =>
+    obtain ⟨n, rfl, hn, rfl⟩ := (encBase_fixed hk).1 h
+    have := (fixedSize_facts hk).1
+    exact ⟨_, rfl, by simp only [bytesOf_length]; omega⟩
+  | none =>
+    cases b <;> simp [Base.fixedSize] at hk
+    · obtain ⟨s, rfl, hs, hn, rfl⟩ := (encBase_str (Or.inl rfl)).1 h
+      exact ⟨_, rfl, by simp; omega⟩
+    · obtain ⟨s, rfl, hs, hn, rfl⟩ := (encBase_str (Or.inr rfl)).1 h
+      exact ⟨_, rfl, by simp; omega⟩
+    · obtain ⟨s, rfl, hs, rfl⟩ := encBase_sig.1 h
+      exact ⟨_, by simp [Base.align, padLen_one, zeros]; rfl, by simp⟩
+
 /-- every encoding starts with the zero padding that aligns its type relative to the start of the body -/
 theorem enc_aligned (bo : ByteOrder) (off : Nat) (t : Ty) (v : Val) (bs : List UInt8)
     (h : enc bo off t v = some bs) : ∃ r, bs = zeros (padLen t.align off) ++ r ∧ 0 < r.length := by
-  sorry
+  by_cases hs : shapeOk t v = false
+  · rw [enc_bad bo off t v hs] at h; cases h
+  cases t with
+  | base b =>
+    simp only [enc] at h
+    exact encBase_aligned bo off b v bs h
+  | array e =>
+    cases v <;> simp [shapeOk] at hs
+    obtain ⟨body, _, _, rfl⟩ := enc_array_some h
+    exact ⟨_, rfl, by simp; omega⟩
+  | dict k vt =>
+    cases v <;> simp [shapeOk] at hs
+    obtain ⟨body, _, _, rfl⟩ := enc_dict_some h
+    exact ⟨_, rfl, by simp; omega⟩
+  | struct fs =>
+    cases v <;> simp [shapeOk] at hs
+    rename_i vs
+    obtain ⟨hne, body, hb, rfl⟩ := enc_struct_some h
+    refine ⟨body, rfl, ?_⟩
+    cases fs with
+    | nil => exact (hne rfl).elim
+    | cons t ts =>
+      cases vs with
+      | nil => simp [encFields] at hb
+      | cons v vs =>
+        obtain ⟨b, r, h1, _, rfl⟩ := encFields_cons_some hb
+        have := enc_pos bo _ t v b h1
+        simp only [List.length_append]; omega
+  | variant =>
+    cases v <;> simp [shapeOk] at hs
+    obtain ⟨_, body, _, rfl⟩ := enc_variant_some h
+    exact ⟨_, by simp [Ty.align, padLen_one, zeros]; rfl, by simp⟩
+
+/-! ### typing -/
+
+theorem encBase_some_wellTyped (bo : ByteOrder) (off : Nat) (b : Base) (v : Val) (bs : List UInt8)
+    (h : encBase bo off b v = some bs) : wellTyped (.base b) v = true := by
+  cases hk : b.fixedSize with
+  | some k =>
+    obtain ⟨n, rfl, hn, rfl⟩ := (encBase_fixed hk).1 h
+    simp [wellTyped, hk, hn]
+  | none =>
+    cases b <;> simp [Base.fixedSize] at hk
+    · obtain ⟨s, rfl, hs, hn, rfl⟩ := (encBase_str (Or.inl rfl)).1 h
+      simp [wellTyped, Base.fixedSize, hs, hn]
+    · obtain ⟨s, rfl, hs, hn, rfl⟩ := (encBase_str (Or.inr rfl)).1 h
+      simp [wellTyped, Base.fixedSize, hs, hn]
+    · obtain ⟨s, rfl, hs, rfl⟩ := encBase_sig.1 h
+      have := strOk_signature_length s hs
+      have h2 : s.length < 256 ^ 4 := by omega
+      simp [wellTyped, Base.fixedSize, hs, h2]
+
+theorem enc_some_wellTyped_all :
+    (∀ t v, ∀ bo off bs, enc bo off t v = some bs → wellTyped t v = true) ∧
+    (∀ e vs, ∀ bo off bs, encList bo off e vs = some bs → wellTypedList e vs = true) ∧
+    (∀ k vt es, ∀ bo off bs, encEntries bo off k vt es = some bs → wellTypedEntries k vt es = true) ∧
+    (∀ fs vs, ∀ bo off bs, encFields bo off fs vs = some bs → wellTypedFields fs vs = true) := by
+  apply enc_induct
+  case hbase =>
+    intro b v bo off bs h
+    simp only [enc] at h
+    exact encBase_some_wellTyped bo off b v bs h
+  case harr =>
+    intro e vs ih bo off bs h
+    obtain ⟨body, hb, _, _⟩ := enc_array_some h
+    simp only [wellTyped]
+    exact ih _ _ _ hb
+  case hdict =>
+    intro k vt es ih bo off bs h
+    obtain ⟨body, hb, _, _⟩ := enc_dict_some h
+    simp only [wellTyped]
+    exact ih _ _ _ hb
+  case hstruct =>
+    intro fs vs ih bo off bs h
+    obtain ⟨hne, body, hb, _⟩ := enc_struct_some h
+    simp only [wellTyped, ih _ _ _ hb, Bool.and_true]
+    cases fs with
+    | nil => exact (hne rfl).elim
+    | cons t ts => rfl
+  case hvar =>
+    intro t v ih bo off bs h
+    obtain ⟨hok, body, hb, _⟩ := enc_variant_some h
+    simp only [wellTyped, hok, ih _ _ _ hb, Bool.and_true]
+  case hbad =>
+    intro t v hs bo off bs h
+    rw [enc_bad bo off t v hs] at h; cases h
+  case hLnil => intros; simp [wellTypedList]
+  case hLcons =>
+    intro e v vs ih1 ih2 bo off bs h
+    obtain ⟨b, r, h1, h2, _⟩ := encList_cons_some h
+    simp only [wellTypedList, ih1 _ _ _ h1, ih2 _ _ _ h2, Bool.and_true]
+  case hEnil => intros; simp [wellTypedEntries]
+  case hEcons =>
+    intro k vt kv vv rest ih1 ih2 bo off bs h
+    obtain ⟨kb, vb, rb, h1, h2, h3, _⟩ := encEntries_cons_some h
+    simp only [wellTypedEntries, encBase_some_wellTyped _ _ _ _ _ h1, ih1 _ _ _ h2, ih2 _ _ _ h3,
+      Bool.and_true]
+  case hEbad =>
+    intro k vt hd tl hh bo off bs h
+    rw [encEntries_bad bo off k vt hd tl hh] at h; cases h
+  case hFnil => intros; simp [wellTypedFields]
+  case hFcons =>
+    intro t ts v vs ih1 ih2 bo off bs h
+    obtain ⟨b, r, h1, h2, _⟩ := encFields_cons_some h
+    simp only [wellTypedFields, ih1 _ _ _ h1, ih2 _ _ _ h2, Bool.and_true]
+  case hFbad1 => intro v vs bo off bs h; simp [encFields] at h
+  case hFbad2 => intro t ts bo off bs h; simp [encFields] at h
 
 /-- only well-typed values have an encoding: nothing unencodable is ever emitted -/
 theorem enc_some_wellTyped (bo : ByteOrder) (off : Nat) (t : Ty) (v : Val) (bs : List UInt8)
-    (h : enc bo off t v = some bs) : wellTyped t v = true := by
-  sorry
+    (h : enc bo off t v = some bs) : wellTyped t v = true :=
+  enc_some_wellTyped_all.1 t v bo off bs h
 
 /-- a well-typed value is refused only because some array in it would exceed 64 MiB: if the value is
     well typed and every encoding of a sub-array stays within the limit the encoding exists. Stated via
@@ -22,16 +148,244 @@ theorem enc_some_wellTyped (bo : ByteOrder) (off : Nat) (t : Ty) (v : Val) (bs :
     concretely, well-typed values without arrays/dicts always encode. -/
 theorem wellTyped_enc_some_noarray (bo : ByteOrder) (off : Nat) (b : Base) (v : Val)
     (h : wellTyped (.base b) v = true) : (enc bo off (.base b) v).isSome = true := by
-  sorry
+  cases v with
+  | num n =>
+    simp only [wellTyped, Bool.and_eq_true, decide_eq_true_eq] at h
+    obtain ⟨h1, h2⟩ := h
+    cases hk : b.fixedSize with
+    | none => simp [hk] at h1
+    | some k => simp [enc, encBase, hk, h2]
+  | str s =>
+    simp only [wellTyped, Bool.and_eq_true, decide_eq_true_eq] at h
+    obtain ⟨⟨h1, h2⟩, h3⟩ := h
+    cases hk : b.fixedSize with
+    | some k => simp [hk] at h1
+    | none =>
+      cases b <;> simp [Base.fixedSize] at hk <;> simp [enc, encBase, Base.fixedSize, h2, h3]
+  | arr vs => simp [wellTyped] at h
+  | struct vs => simp [wellTyped] at h
+  | variant t v => simp [wellTyped] at h
+
+/-! ### the length does not depend on the byte order -/
+
+theorem encBase_length_bo (off : Nat) (b : Base) (v : Val) (bs bs' : List UInt8)
+    (h : encBase .le off b v = some bs) (h' : encBase .be off b v = some bs') :
+    bs.length = bs'.length := by
+  cases hk : b.fixedSize with
+  | some k =>
+    obtain ⟨n, rfl, hn, rfl⟩ := (encBase_fixed hk).1 h
+    obtain ⟨n', hv, hn', rfl⟩ := (encBase_fixed hk).1 h'
+    simp
+  | none =>
+    cases b <;> simp [Base.fixedSize] at hk
+    · obtain ⟨s, rfl, hs, hn, rfl⟩ := (encBase_str (Or.inl rfl)).1 h
+      obtain ⟨s', hv, hs', hn', rfl⟩ := (encBase_str (Or.inl rfl)).1 h'
+      cases hv; simp
+    · obtain ⟨s, rfl, hs, hn, rfl⟩ := (encBase_str (Or.inr rfl)).1 h
+      obtain ⟨s', hv, hs', hn', rfl⟩ := (encBase_str (Or.inr rfl)).1 h'
+      cases hv; simp
+    · obtain ⟨s, rfl, hs, rfl⟩ := encBase_sig.1 h
+      obtain ⟨s', hv, hs', rfl⟩ := encBase_sig.1 h'
+      cases hv; simp
+
+theorem enc_length_bo_all :
+    (∀ t v, ∀ off bs bs', enc .le off t v = some bs → enc .be off t v = some bs' →
+      bs.length = bs'.length) ∧
+    (∀ e vs, ∀ off bs bs', encList .le off e vs = some bs → encList .be off e vs = some bs' →
+      bs.length = bs'.length) ∧
+    (∀ k vt es, ∀ off bs bs', encEntries .le off k vt es = some bs →
+      encEntries .be off k vt es = some bs' → bs.length = bs'.length) ∧
+    (∀ fs vs, ∀ off bs bs', encFields .le off fs vs = some bs → encFields .be off fs vs = some bs' →
+      bs.length = bs'.length) := by
+  apply enc_induct
+  case hbase =>
+    intro b v off bs bs' h h'
+    simp only [enc] at h h'
+    exact encBase_length_bo off b v bs bs' h h'
+  case harr =>
+    intro e vs ih off bs bs' h h'
+    obtain ⟨body, hb, _, rfl⟩ := enc_array_some h
+    obtain ⟨body', hb', _, rfl⟩ := enc_array_some h'
+    have := ih _ _ _ hb hb'
+    simp only [List.length_append, zeros_length, bytesOf_length, this]
+  case hdict =>
+    intro k vt es ih off bs bs' h h'
+    obtain ⟨body, hb, _, rfl⟩ := enc_dict_some h
+    obtain ⟨body', hb', _, rfl⟩ := enc_dict_some h'
+    have := ih _ _ _ hb hb'
+    simp only [List.length_append, zeros_length, bytesOf_length, this]
+  case hstruct =>
+    intro fs vs ih off bs bs' h h'
+    obtain ⟨_, body, hb, rfl⟩ := enc_struct_some h
+    obtain ⟨_, body', hb', rfl⟩ := enc_struct_some h'
+    have := ih _ _ _ hb hb'
+    simp only [List.length_append, zeros_length, this]
+  case hvar =>
+    intro t v ih off bs bs' h h'
+    obtain ⟨_, body, hb, rfl⟩ := enc_variant_some h
+    obtain ⟨_, body', hb', rfl⟩ := enc_variant_some h'
+    have := ih _ _ _ hb hb'
+    simp only [List.length_append, List.length_cons, this]
+  case hbad =>
+    intro t v hs off bs bs' h
+    rw [enc_bad _ off t v hs] at h; cases h
+  case hLnil =>
+    intro e off bs bs' h h'
+    simp only [encList, Option.some.injEq] at h h'
+    subst h h'; rfl
+  case hLcons =>
+    intro e v vs ih1 ih2 off bs bs' h h'
+    obtain ⟨b, r, h1, h2, rfl⟩ := encList_cons_some h
+    obtain ⟨b', r', h1', h2', rfl⟩ := encList_cons_some h'
+    have e1 := ih1 _ _ _ h1 h1'
+    rw [← e1] at h2'
+    have e2 := ih2 _ _ _ h2 h2'
+    simp only [List.length_append, e1, e2]
+  case hEnil =>
+    intro k vt off bs bs' h h'
+    simp only [encEntries, Option.some.injEq] at h h'
+    subst h h'; rfl
+  case hEcons =>
+    intro k vt kv vv rest ih1 ih2 off bs bs' h h'
+    obtain ⟨kb, vb, rb, h1, h2, h3, rfl⟩ := encEntries_cons_some h
+    obtain ⟨kb', vb', rb', h1', h2', h3', rfl⟩ := encEntries_cons_some h'
+    have e0 := encBase_length_bo _ _ _ _ _ h1 h1'
+    rw [← e0] at h2' h3'
+    have e1 := ih1 _ _ _ h2 h2'
+    rw [← e1] at h3'
+    have e2 := ih2 _ _ _ h3 h3'
+    simp only [List.length_append, zeros_length, e0, e1, e2]
+  case hEbad =>
+    intro k vt hd tl hh off bs bs' h
+    rw [encEntries_bad _ off k vt hd tl hh] at h; cases h
+  case hFnil =>
+    intro off bs bs' h h'
+    simp only [encFields, Option.some.injEq] at h h'
+    subst h h'; rfl
+  case hFcons =>
+    intro t ts v vs ih1 ih2 off bs bs' h h'
+    obtain ⟨b, r, h1, h2, rfl⟩ := encFields_cons_some h
+    obtain ⟨b', r', h1', h2', rfl⟩ := encFields_cons_some h'
+    have e1 := ih1 _ _ _ h1 h1'
+    rw [← e1] at h2'
+    have e2 := ih2 _ _ _ h2 h2'
+    simp only [List.length_append, e1, e2]
+  case hFbad1 => intro v vs off bs bs' h; simp [encFields] at h
+  case hFbad2 => intro t ts off bs bs' h; simp [encFields] at h
 
 /-- the length of an encoding does not depend on the byte order -/
 theorem enc_length_bo (off : Nat) (t : Ty) (v : Val) (bs bs' : List UInt8)
-    (h : enc .le off t v = some bs) (h' : enc .be off t v = some bs') : bs.length = bs'.length := by
-  sorry
+    (h : enc .le off t v = some bs) (h' : enc .be off t v = some bs') : bs.length = bs'.length :=
+  enc_length_bo_all.1 t v off bs bs' h h'
+
+/-! ### only the offset modulo 8 matters -/
+
+theorem encBase_offset_mod8 (bo : ByteOrder) (off off' : Nat) (b : Base) (v : Val)
+    (hm : off % 8 = off' % 8) : encBase bo off b v = encBase bo off' b v := by
+  unfold encBase
+  rw [padLen_congr (base_align_cases b) hm,
+    padLen_congr (a := 4) (by simp) hm]
+
+theorem enc_offset_mod8_all :
+    (∀ t v, ∀ bo off off', off % 8 = off' % 8 → enc bo off t v = enc bo off' t v) ∧
+    (∀ e vs, ∀ bo off off', off % 8 = off' % 8 → encList bo off e vs = encList bo off' e vs) ∧
+    (∀ k vt es, ∀ bo off off', off % 8 = off' % 8 →
+      encEntries bo off k vt es = encEntries bo off' k vt es) ∧
+    (∀ fs vs, ∀ bo off off', off % 8 = off' % 8 → encFields bo off fs vs = encFields bo off' fs vs) := by
+  apply enc_induct
+  case hbase =>
+    intro b v bo off off' hm
+    simp only [enc]
+    exact encBase_offset_mod8 bo off off' b v hm
+  case harr =>
+    intro e vs ih bo off off' hm
+    have p1 : padLen 4 off = padLen 4 off' := padLen_congr (by simp) hm
+    have hm1 : (off + padLen 4 off + 4) % 8 = (off' + padLen 4 off' + 4) % 8 := by
+      rw [p1]; omega
+    have p2 := padLen_congr (ty_align_cases e) hm1
+    have hm2 : (off + padLen 4 off + 4 + padLen e.align (off + padLen 4 off + 4)) % 8 =
+        (off' + padLen 4 off' + 4 + padLen e.align (off' + padLen 4 off' + 4)) % 8 := by
+      rw [p2]; omega
+    simp only [enc]
+    rw [ih bo _ _ hm2, p2, p1]
+  case hdict =>
+    intro k vt es ih bo off off' hm
+    have p1 : padLen 4 off = padLen 4 off' := padLen_congr (by simp) hm
+    have hm1 : (off + padLen 4 off + 4) % 8 = (off' + padLen 4 off' + 4) % 8 := by
+      rw [p1]; omega
+    have p2 : padLen 8 (off + padLen 4 off + 4) = padLen 8 (off' + padLen 4 off' + 4) :=
+      padLen_congr (by simp) hm1
+    have hm2 : (off + padLen 4 off + 4 + padLen 8 (off + padLen 4 off + 4)) % 8 =
+        (off' + padLen 4 off' + 4 + padLen 8 (off' + padLen 4 off' + 4)) % 8 := by
+      rw [p2]; omega
+    simp only [enc]
+    rw [ih bo _ _ hm2, p2, p1]
+  case hstruct =>
+    intro fs vs ih bo off off' hm
+    have p1 : padLen 8 off = padLen 8 off' := padLen_congr (by simp) hm
+    have hm1 : (off + padLen 8 off) % 8 = (off' + padLen 8 off') % 8 := by rw [p1]; omega
+    simp only [enc]
+    rw [ih bo _ _ hm1, p1]
+  case hvar =>
+    intro t v ih bo off off' hm
+    simp only [enc]
+    rw [ih bo (off + (sigBytes t).length + 2) (off' + (sigBytes t).length + 2) (by omega)]
+  case hbad =>
+    intro t v hs bo off off' _
+    rw [enc_bad bo off t v hs, enc_bad bo off' t v hs]
+  case hLnil => intros; simp [encList]
+  case hLcons =>
+    intro e v vs ih1 ih2 bo off off' hm
+    simp only [encList]
+    rw [ih1 bo off off' hm]
+    cases enc bo off' e v with
+    | none => rfl
+    | some b =>
+      simp only
+      rw [ih2 bo (off + b.length) (off' + b.length) (by omega)]
+  case hEnil => intros; simp [encEntries]
+  case hEcons =>
+    intro k vt kv vv rest ih1 ih2 bo off off' hm
+    have p1 : padLen 8 off = padLen 8 off' := padLen_congr (by simp) hm
+    have hm1 : (off + padLen 8 off) % 8 = (off' + padLen 8 off') % 8 := by rw [p1]; omega
+    simp only [encEntries]
+    rw [encBase_offset_mod8 bo _ _ k kv hm1]
+    cases encBase bo (off' + padLen 8 off') k kv with
+    | none => rfl
+    | some kb =>
+      simp only
+      rw [ih1 bo (off + padLen 8 off + kb.length) (off' + padLen 8 off' + kb.length) (by omega)]
+      cases enc bo (off' + padLen 8 off' + kb.length) vt vv with
+      | none => rfl
+      | some vb =>
+        simp only
+        rw [ih2 bo (off + padLen 8 off + kb.length + vb.length)
+          (off' + padLen 8 off' + kb.length + vb.length) (by omega), p1]
+  case hEbad =>
+    intro k vt hd tl hh bo off off' _
+    rw [encEntries_bad bo off k vt hd tl hh, encEntries_bad bo off' k vt hd tl hh]
+  case hFnil => intros; simp [encFields]
+  case hFcons =>
+    intro t ts v vs ih1 ih2 bo off off' hm
+    simp only [encFields]
+    rw [ih1 bo off off' hm]
+    cases enc bo off' t v with
+    | none => rfl
+    | some b =>
+      simp only
+      rw [ih2 bo (off + b.length) (off' + b.length) (by omega)]
+  case hFbad1 => intros; simp [encFields]
+  case hFbad2 => intros; simp [encFields]
 
 /-- the encoding only depends on the offset modulo 8 -/
 theorem enc_offset_mod8 (bo : ByteOrder) (off off' : Nat) (t : Ty) (v : Val) (hm : off % 8 = off' % 8) :
-    enc bo off t v = enc bo off' t v := by
-  sorry
+    enc bo off t v = enc bo off' t v :=
+  enc_offset_mod8_all.1 t v bo off off' hm
 
 end Rustbus.Wire
+
+#print axioms Rustbus.Wire.enc_aligned
+#print axioms Rustbus.Wire.enc_some_wellTyped
+#print axioms Rustbus.Wire.wellTyped_enc_some_noarray
+#print axioms Rustbus.Wire.enc_length_bo
+#print axioms Rustbus.Wire.enc_offset_mod8
